@@ -26,6 +26,9 @@ def _raise(kind):
         raise Base0('stop', 2)
     if kind == 'nested':
         raise Nested(('x', (1, 2)), {'k': [1, 2, 3]})
+    if kind == 'encerr':      # what a worker raises for a result it could not send
+        import billiard.pool as bp
+        raise bp.MaybeEncodingError(TypeError("cannot pickle '_thread.lock' object"), [1, {'k': 'v'}])
     raise RuntimeError(kind)
 
 
@@ -57,6 +60,10 @@ def _args(kind):
     return {'exc0': (), 'exc1': (1,)}.get(kind, (kind,))
 
 
+def _unwrap(exc):
+    return exc.exc if isinstance(exc, be.ExceptionWithTraceback) else exc
+
+
 def _chain(tb):
     out = []
     while tb is not None:
@@ -82,8 +89,7 @@ class EInfoAdapter:
         be.Traceback.__init__.__defaults__ = self._old
 
     def _sig(self, ei):
-        exc = ei.exception
-        exc = getattr(exc, 'exc', exc)
+        exc = _unwrap(ei.exception)
         return (ei.type, type(exc), exc.args, ei.traceback, tuple(_chain(ei.tb)))
 
     def step(self, act):
@@ -104,7 +110,7 @@ class EInfoAdapter:
             real = chain[:-1] if trunc else chain
             st.update(phase='have', d=d, kind=kind, frames=len(real), trunc=trunc)
             # data clauses: original type and args; the text names the raising frame
-            exc = getattr(self.ei.exception, 'exc', self.ei.exception)
+            exc = _unwrap(self.ei.exception)
             want_fn = '_raise' if d >= 2 else 'capture'
             ok = (self.ei.type is type(exc)) and (want_fn in self.ei.traceback) \
                 and ('Traceback (most recent call last)' in self.ei.traceback) \
